@@ -20,6 +20,7 @@
     X(unsigned char, pkind, ) X(unsigned char, n, ) X(unsigned char, key, [KN][2]) X(unsigned char, gp_sel, [4]) X(unsigned char, cmp, ) X(unsigned char, dup_ok, ) X(unsigned char, fail_at, ) X(unsigned char, optext, [4])
 #include "vf.h"
 #include "vf_mem.h"
+#include "vf_strtoul.h"
 
 static unsigned dup_calls; static const cJSON *dup_arg; static cJSON *dup_ret;
 static cJSON *vf_stub_duplicate(const cJSON *item, cJSON_bool recurse)
